@@ -160,6 +160,8 @@ pub struct ConvCfg {
     pub force_cmds: bool,
     /// levels sometimes carry `fallback_to_usage()`
     pub usage_fallback: bool,
+    /// repeated named items are sometimes gathered with `collect::<Vec<_>>()` instead of `many()`
+    pub collect: bool,
 }
 
 impl Default for ConvCfg {
@@ -175,6 +177,7 @@ impl Default for ConvCfg {
             version: false,
             force_cmds: false,
             usage_fallback: false,
+            collect: false,
         }
     }
 }
@@ -257,6 +260,10 @@ pub fn gen_conv_field(u: &mut Un, names: &mut Names, cfg: &ConvCfg) -> Node {
                 catch: false,
             },
             4 => Node::Count(n.b()),
+            12 if cfg.collect && u.chance(85) => Node::Collect {
+                n: n.b(),
+                catch: false,
+            },
             12 => Node::Many {
                 n: n.b(),
                 catch: false,
@@ -284,6 +291,10 @@ pub fn gen_conv_field(u: &mut Un, names: &mut Names, cfg: &ConvCfg) -> Node {
     match k {
         5 => n,
         6 => Node::Optional {
+            n: n.b(),
+            catch: false,
+        },
+        7 if cfg.collect && u.chance(85) => Node::Collect {
             n: n.b(),
             catch: false,
         },
@@ -630,7 +641,7 @@ pub fn gen_conv_sentence(u: &mut Un, names: &mut Names, level: &Level) -> (Level
                     panic!("unexpected optional in conventional level")
                 }
             }
-            Node::Many { n, .. } | Node::Some { n, .. } => {
+            Node::Many { n, .. } | Node::Some { n, .. } | Node::Collect { n, .. } => {
                 let min = usize::from(matches!(f, Node::Some { .. }));
                 let mut k = min + u.weighted(&[2, 3, 2, 1]).min(3 - min);
                 if pos_of(n).is_some() && !pos_open {
